@@ -186,6 +186,9 @@ func (c *Context) Abs(d, x *Decimal) (Condition, error) {
 		return c.setAsNaN(d, x, nil)
 	}
 	d.Abs(x)
+	if d.Form == Infinite {
+		return 0, nil
+	}
 	res := c.round(d, d)
 	return c.goError(res)
 }
@@ -196,6 +199,9 @@ func (c *Context) Neg(d, x *Decimal) (Condition, error) {
 		return c.setAsNaN(d, x, nil)
 	}
 	d.Neg(x)
+	if d.Form == Infinite {
+		return 0, nil
+	}
 	res := c.round(d, d)
 	return c.goError(res)
 }
